@@ -411,7 +411,11 @@ def run_loop(eng, node, st, ordn, lc, idxname, d, guard_fn, bind_fn, step_fn, gh
     # ghost variables of the loop (name -> init clause); updated by 'ghost_update' clauses at end of body
     for g, init in (lc.get('ghost') or {}).items():
         st.env[g] = eval_clause(eng, init, st.env, st, old=(f.entry_env, f.entry_heap))
-    # 1. invariant holds on entry
+    # 1. invariant holds on entry (optional proof steps first)
+    for label, clause in f.contract.labelled(lc.get('lemmas_init', []), 'initstep'):
+        t = eval_bool(eng, clause, st.env, st, old=(f.entry_env, f.entry_heap))
+        eng.oblige(st, "loop%d:%s" % (ordn, label), 'assert', t, node)
+        st.assume(t)
     check_inv(eng, st, lc, ordn, 'init', node)
     entry_alloc = st.heap.alloc
     mods = calls.eval_assign_targets(eng, lc.get('modifies', []), st.env, st)
@@ -490,6 +494,8 @@ def run_loop(eng, node, st, ordn, lc, idxname, d, guard_fn, bind_fn, step_fn, gh
                 eng.oblige(s, "loop%d:term" % ordn, 'term', z3.And(dec0 >= 0, dec1 < dec0), node)
         elif o[0] == 'break':
             s.trail.append("loop%d:break" % ordn)
+            for gname, upd in (lc.get('ghost_break') or {}).items():
+                s.env[gname] = eval_clause(eng, upd, s.env, s, old=(f.entry_env, f.entry_heap))
             outs.append((NORMAL, s))
         else:
             outs.append((o, s))
